@@ -32,7 +32,7 @@ for pr in props:
         evidence_file=f"evidence/{c['id']}.json",
         replay_cmd_template=f"./check.py {c['id']} --replay {{path}}",
         engine="lean4-proof+correspondence",
-        level_claimed=dict(category=c.get("level", "proof"), text=c["level_text"], design_ref=c.get("design_ref", "DESIGN.md §7")),
+        level_claimed=dict(category=(c.get("level") if c.get("level") in ("exploration", "fault_enumeration", "model_checking", "proof", "translation_validation", "other") else "proof"), text=c["level_text"], design_ref=c.get("design_ref", "DESIGN.md §7")),
         level_note=c["level_note"],
         technique=c["technique"],
     ))
